@@ -24,6 +24,31 @@ type Outcome struct {
 	Log     string          // tail of the child's stderr when Crashed/Hung
 }
 
+// JournalPath, when set, names a file that always holds the payload of a job that has been started
+// and not finished (removed when none is in flight): if the parent itself is killed, the driver finds
+// the case that was being executed there.
+var JournalPath string
+var journalMu sync.Mutex
+var inflight = map[string]json.RawMessage{}
+
+func journal(key string, payload json.RawMessage, start bool) {
+	if JournalPath == "" {
+		return
+	}
+	journalMu.Lock()
+	defer journalMu.Unlock()
+	if start {
+		inflight[key] = payload
+	} else {
+		delete(inflight, key)
+	}
+	for _, p := range inflight {
+		ioutil.WriteFile(JournalPath, p, 0o644)
+		return
+	}
+	os.Remove(JournalPath)
+}
+
 type line struct {
 	I  int             `json:"i"`
 	Ev string          `json:"ev"`
@@ -131,9 +156,15 @@ LOOP:
 			}
 			if l.Ev == "start" {
 				started[l.I] = true
+				for _, j := range jobs {
+					if j.I == l.I {
+						journal(sub+strconv.Itoa(l.I), j.P, true)
+					}
+				}
 			} else if l.Ev == "done" {
 				done[l.I] = l.R
 				delete(started, l.I)
+				journal(sub+strconv.Itoa(l.I), nil, false)
 			}
 			if !timer.Stop() {
 				select {
@@ -151,6 +182,9 @@ LOOP:
 		}
 	}
 	cmd.Wait()
+	for i := range started {
+		journal(sub+strconv.Itoa(i), nil, false)
+	}
 	s := stderr.String()
 	if len(s) > 3000 {
 		s = s[:1500] + "\n...\n" + s[len(s)-1500:]
